@@ -42,6 +42,8 @@ pub mod vs {
     /// only meaningful under the Kani hasher model; native scenarios compare real digests instead
     pub fn streams_equal(_i: usize, _j: usize) -> bool { false }
     pub fn streams_reset() {}
+    /// natively the ring uses its real hash functions; scenarios sweep real keys instead (vs::NATIVE)
+    pub fn ring_set(_table: [[u64; 2]; 5], _key_pos: u64) {}
     pub const NATIVE: bool = true;
 }
 
